@@ -61,6 +61,14 @@ def run(ctx):
     elif 'concurrent map' in p.stderr:
         fails.append({'what': 'Go runtime fatal error in a multi-file run', 'key': 'fatal:concurrent-map', 'report': p.stderr[-3000:]})
     elif p.returncode != 0:
+        cur = os.path.join(ctx.out, 'current.json')
+        if os.path.exists(cur) and ('panic:' in p.stderr or 'fatal error:' in p.stderr):
+            # a goroutine of the run died: the run that was in progress is the failing input
+            i = max(p.stderr.find('panic:'), p.stderr.find('fatal error:'))
+            first = ' '.join(p.stderr[i:i + 300].split()[:25])
+            fails.append({'what': 'a multi-file run crashes the process (Go runtime panic in a worker goroutine): ' + first,
+                          'key': 'crash:' + first[:120], 'input': json.load(open(cur)), 'report': p.stderr[i:i + 3000]})
+            vf.finish(ctx, 'proof', fails)
         ctx.broken.append('harness c10 failed (rc %d): %s' % (p.returncode, (p.stderr or p.stdout)[-400:]))
         vf.finish(ctx, 'proof', fails)
     s = vf.load_json(os.path.join(ctx.out, 'summary.json'))
